@@ -122,7 +122,7 @@ def universe_groups(ctx: Ctx, rng):
         keep = set(rng.sample(range(len(sets)), 60))
         sets = [p for i, p in enumerate(sets) if i in keep or len(p) == 1]
     groups = []
-    toks = ["a", "b", "12", "007", "x y"]
+    toks = ["a", "b", "12", "007", "x y", "07"]
     base_paths = ["/" + t for t in toks] + ["/" + t + "/" for t in toks[:3]] + ["/a/b", "/a//", "//a", "/a/b/", "/"]
     for idxs in sets:
         rules = [dict(U[i]) for i in idxs]
@@ -149,7 +149,7 @@ def converter_groups(ctx: Ctx, rng):
         V("int", "v"), V("int", "v", signed=True), V("int", "v", n=3), V("int", "v", lo=3, hi=12), V("int", "v", lo=5), V("int", "v", hi=0),
         V("int", "v", signed=True, hi=5), V("int", "v", n=2, lo=7), V("float", "v"), V("float", "v", signed=True),
         V("float", "v", lo=1500, hi=2500), V("float", "v", signed=True, hi=0), V("any", "v", items=["yes", "no", "maybe"], cust="bool"),
-        V("any", "v", items=["yes", "no", "maybe"], cust="boolm"), V("strlen", "v", n=2, cust="code"), V("path", "v", cust="wiki"),
+        V("any", "v", items=["yes", "no", "maybe"], cust="boolm"), V("strlen", "v", n=2, cust="code"), V("path", "v", cust="wiki"), V("path", "v", cust="wiki2"),
         V("int", "v", cust="dflt"),
     ]
     texts = ["a", "ab", "abc", "abcd", "é", "about", "help", "foo,bar", "foo", "yes", "no", "maybe", "0", "3", "2", "12", "13", "5", "4", "-5", "-6",
@@ -175,6 +175,8 @@ def converter_groups(ctx: Ctx, rng):
             if c.get("cust") == "dflt":
                 cfg["map"]["dflt"] = "int"
             ts = texts if not ctx.quick else rng.sample(texts, 12) + rx.extra_tokens(rules)
+            if c["conv"] == "path":
+                ts = ts + ["a/b", "a/b/c", "w"]
             paths = []
             for t in ts:
                 mid = (seg["pre"] + t + seg["post"])
@@ -182,6 +184,21 @@ def converter_groups(ctx: Ctx, rng):
             ops = [{"op": "match", "path": p, "method": "GET", "wsarg": "none"} for p in paths]
             ops += rx.build_ops(rng, cfg)
             groups.append((cfg, ops))
+    # redirect_to sweep: the placeholder is spelled by the rule's converter (string template) / the Python value (callable)
+    for c in convs:
+        if c.get("cust") or c["conv"] == "path":
+            continue
+        for kind in ("str", "fn"):
+            for target in (["t/", ("v", "v"), "/x"], ["/abs/", ("v", "v")], [("v", "v"), ".html"]):
+                if ctx.quick and rng.random() < 0.6 and not (kind == "str" and c["conv"] == "int" and c["n"]):
+                    continue
+                main = rx.xrule([L("r"), dict(c)], rto=rx.tpl(kind, *target), methods=rng.choice([None, None, ["GET"]]))
+                rules = [main] + rng.choice([[], [rx.xrule([L("r"), rx.xvar("string", "s")])]])
+                rng.shuffle(rules)
+                bind = dict(rt.DEFAULT_BIND, script=rng.choice(["/", "/app", "/app/"]), scheme=rng.choice(["http", "https"]))
+                cfg = rx.make_cfg(rules, True, True, False, bind)
+                ts = texts if not ctx.quick else rng.sample(texts, 10) + ["007", "12", "1.50", "x y"]
+                groups.append((cfg, [{"op": "match", "path": "/r/" + t, "method": rng.choice(["GET", "GET", "POST"]), "wsarg": "none"} for t in ts]))
     return groups
 
 
